@@ -5,6 +5,7 @@ import reactivex
 from reactivex import Observable, abc
 from reactivex.disposable import (
     CompositeDisposable,
+    Disposable,
     SerialDisposable,
     SingleAssignmentDisposable,
 )
@@ -31,19 +32,22 @@ def on_error_resume_next_(
         even if a sequence terminates exceptionally.
     """
 
-    sources_ = iter(sources)
-
     def subscribe(
         observer: abc.ObserverBase[_T], scheduler: abc.SchedulerBase | None = None
     ) -> abc.DisposableBase:
         scheduler = scheduler or CurrentThreadScheduler.singleton()
 
+        sources_ = iter(sources)
         subscription = SerialDisposable()
         cancelable = SerialDisposable()
+        is_disposed = False
 
         def action(
             scheduler: abc.SchedulerBase, state: Exception | None = None
         ) -> None:
+            if is_disposed:
+                return
+
             try:
                 source = next(sources_)
             except StopIteration:
@@ -51,21 +55,32 @@ def on_error_resume_next_(
                 return
 
             # Allow source to be a factory method taking an error
-            source = source(state) if callable(source) else source
-            current = reactivex.from_future(source) if is_future(source) else source
+            try:
+                source = source(state) if callable(source) else source
+                current = (
+                    reactivex.from_future(source) if is_future(source) else source
+                )
+            except Exception as ex:  # pylint: disable=broad-except
+                observer.on_error(ex)
+                return
 
             d = SingleAssignmentDisposable()
             subscription.disposable = d
 
             def on_resume(state: Exception | None = None) -> None:
-                scheduler.schedule(action, state)
+                cancelable.disposable = scheduler.schedule(action, state)
 
             d.disposable = current.subscribe(
                 observer.on_next, on_resume, on_resume, scheduler=scheduler
             )
 
         cancelable.disposable = scheduler.schedule(action)
-        return CompositeDisposable(subscription, cancelable)
+
+        def dispose() -> None:
+            nonlocal is_disposed
+            is_disposed = True
+
+        return CompositeDisposable(subscription, cancelable, Disposable(dispose))
 
     return Observable(subscribe)
 
